@@ -163,6 +163,13 @@ func (x *Exec) step(s *State, in ssa.Instruction, prev *ssa.BasicBlock) bool {
 	case *ssa.Go:
 		x.E.Note("go statement in %s: the spawned call is not modelled (no effect on this goroutine's modelled state)", x.fn.String())
 		x.event(s, "go", &in.Call)
+		// count the goroutines started per static callee: spec builtin spawned(name)
+		if callee := staticFn(&in.Call); callee != nil {
+			h := "GV$spawn$" + callee.Name()
+			x.E.HeapSorts[h] = smt.Int
+			s.heap[h] = smt.Add(x.Heap(s, h), smt.IntC(1))
+			x.wrote[h] = true
+		}
 	case *ssa.MakeClosure:
 		fv := FuncVal{Fn: in.Fn.(*ssa.Function)}
 		for _, b := range in.Bindings {
